@@ -64,6 +64,13 @@ pub fn close_position(
     // this should always be a valid operation as calculate_weight will return >= amount
     let weight_to_reduce = calculate_weight(unbonding_duration, to_close_position.amount)?;
 
+    // changes made during this epoch must not alter the epoch's global weight snapshot
+    let epoch_to_snapshot = helpers::get_current_epoch(deps.as_ref())?;
+    crate::execute::snapshot::take_global_weight_snapshot_if_missing(
+        deps.storage,
+        epoch_to_snapshot,
+    )?;
+
     // reduce the global weight
     GLOBAL_WEIGHT.update::<_, StdError>(deps.storage, |global_weight| {
         Ok(global_weight.saturating_sub(weight_to_reduce))
